@@ -267,6 +267,10 @@ void sqf::parser::preprocessor::impl_default::instance::replace_skip(::sqf::runt
         if (in_string)
         {
             char c = fileinfo.next();
+            if (c == '\0')
+            { // the text ends inside the string literal
+                break;
+            }
             if (c == '"')
             {
                 in_string = false;
